@@ -155,6 +155,26 @@ def _aug(st, names):
     raise TranslateError("statement in offset block: " + ast.dump(st)[:80])
 
 
+def bounds_norm(fn):
+    """`boundsTuple` is (-inf, inf) for None and tuple(bounds) otherwise -- nothing else
+    (the model receives lb/ub exactly as the caller gave them)."""
+    found = False
+    for st in fn.body:
+        if isinstance(st, ast.If) and ast.unparse(st.test) == "bounds is None":
+            b = [ast.unparse(x) for x in st.body]
+            o = [ast.unparse(x) for x in st.orelse]
+            if b != ["boundsTuple = (-np.inf, np.inf)"] or o != ["boundsTuple = tuple(bounds)"]:
+                raise TranslateError("bounds normalisation is %r / %r, model expects "
+                                     "(-np.inf, np.inf) / tuple(bounds)" % (b, o))
+            found = True
+    stores = [ast.unparse(n) for n in ast.walk(fn) if isinstance(n, ast.Assign)
+              and any(isinstance(t, ast.Name) and t.id == "boundsTuple"
+                      for t in n.targets)]
+    if not found or len(stores) != 2:
+        raise TranslateError("boundsTuple is not assigned exactly by the `bounds is None` "
+                             "test: %r" % stores)
+
+
 def offset_rule(fn):
     names = {"x": "x", "dxFloat": "dx"}
     body = fn.body
@@ -279,6 +299,7 @@ def generate(src_text):
     fns = {f.name: f for f in tree.body if isinstance(f, ast.FunctionDef)}
     if "derivative" not in fns:
         raise TranslateError("no function derivative")
+    bounds_norm(fns["derivative"])
     rule, _ = offset_rule(fns["derivative"])
     grow, hrows = grad_hess_rows(tree)
     out = ["(* generated from src/WallGo/helpers.py -- do not edit *)",
